@@ -31,7 +31,7 @@ Theorem C04_tracker_inv : forall e dbg rl items r,
   ptr_current (pr_rec r) = 0 /\ ptr_limit (pr_rec r) = rl /\ ptr_high (pr_rec r) <= rl + 1.
 Proof.
   intros e dbg rl items r. destruct e; apply tracker_run; intros fuel.
-  - apply gg_document. exact CT_ok.
+  - apply document_CT.
   - apply gg_field_set. exact CT_ok.
   - apply type_entry_CT.
 Qed.
@@ -73,7 +73,7 @@ Theorem C04_silent_after_limit : forall e dbg rl items r pre err post_,
   pr_errors r = pre ++ err :: post_ -> is_limit_err err = true -> no_limit pre -> post_ = [].
 Proof.
   intros e dbg rl items r pre err post_. destruct e; apply silent_run; intros fuel.
-  - apply gg_document. exact CS_ok.
+  - apply document_CS.
   - apply gg_field_set. exact CS_ok.
   - apply type_entry_CS.
 Qed.
@@ -88,7 +88,7 @@ Theorem C04_token_consumption : forall e dbg rl items r,
   run e dbg rl items = POk r -> pr_tokens_high r <= N.of_nat (length items).
 Proof.
   intros e dbg rl items r. destruct e; apply pulled_run; intros n fuel.
-  - apply gg_document. apply CP_ok.
+  - apply document_CP.
   - apply gg_field_set. apply CP_ok.
   - apply type_entry_CP.
 Qed.
